@@ -758,6 +758,8 @@ fn block_contains_nested_function(block: &Block) -> bool {
             Stmt::Assignment(assignment) => assignment.variables().iter().any(var_contains_nested_function) || assignment.expressions().iter().any(contains_nested_function),
             Stmt::LocalAssignment(assignment) => assignment.expressions().iter().any(contains_nested_function),
             Stmt::FunctionCall(function_call) => function_call_contains_nested_function(function_call),
+            #[cfg(any(feature = "lua52", feature = "luajit"))]
+            Stmt::Goto(_) => false,
             _ => unreachable!("testing block_contains_nested_function on a stmt which isn't an assignment/function call"),
         };
 
